@@ -64,11 +64,61 @@ def run(chk):
                     r += origin(s, depth + 1)
                 return r or [("unknown", None)]
             return [("unknown", " ".join(fn.text(e).split())[:30])]
+        # flow-sensitive view of Error locals: which definition reaches the return on each path, and is the local known to be kOk there
+        defs = {}           # element id -> (did, rhs expr)
+        for i, x in fn.ex.items():
+            if x["k"] == "decl":
+                for v in x["vars"]:
+                    if v.get("init") and "Error" in v.get("ty", ""):
+                        defs[i] = (v["did"], v["init"])
+            elif x["k"] == "binop" and x["op"] == "=":
+                l = fn.e(fn.strip(x["lhs"]))
+                if l and l["k"] == "ref" and "did" in l and "Error" in l.get("ty", ""):
+                    defs[i] = (l["did"], x["rhs"])
+        rel = None
+        if defs:
+            from .relational import Relational
+
+            def elem_fx(eid, x, facts):
+                if eid in defs:
+                    d = defs[eid][0]
+                    return ([("src", d, eid)], [f for f in facts if f[0] in ("src", "ok") and f[1] == d])
+                return None
+
+            def edge_fx(b, si, atom, holds, facts):
+                a = fn.e(atom)
+                if a and a["k"] == "binop" and a["op"] in ("==", "!="):
+                    p, q = fn.e(fn.strip(a["lhs"])), fn.e(fn.strip(a["rhs"]))
+                    for u, w in ((p, q), (q, p)):
+                        if u and u["k"] == "ref" and "Error" in u.get("ty", "") and w is not None and w.get("cvn") == "kOk" and (a["op"] == "==") == holds:
+                            return [("ok", u.get("did"))]
+                return ()
+            rel = Relational(fn, elem_fx, edge_fx)
         for b, idx, r in fn.return_sites():
             x = fn.e(r)
-            if x.get("val"):
-                for k, c in origin(x["val"]):
-                    out.append((r, k, c))
+            if not x.get("val"):
+                continue
+            v = fn.e(fn.strip(x["val"]))
+            if rel is not None and v is not None and v["k"] == "ref" and v.get("did") in {d for d, _ in defs.values()}:
+                states = rel.before(r)
+                if states is not None:
+                    seen_src = set()
+                    unknown = False
+                    for facts, flags in states:
+                        if ("ok", v["did"]) in facts:
+                            continue
+                        srcs = [f[2] for f in facts if f[0] == "src" and f[1] == v["did"]]
+                        if not srcs:
+                            unknown = True
+                        seen_src.update(srcs)
+                    for e in sorted(seen_src):
+                        for k, c in origin(defs[e][1]):
+                            out.append((r, k, c))
+                    if unknown:
+                        out.append((r, "unknown", None))
+                    continue
+            for k, c in origin(x["val"]):
+                out.append((r, k, c))
         return out
     cls = {k: classify(fn) for k, fn in allf.items() if "Error" in (fn.raw.get("ret") or "")}
     byname = {}
@@ -125,3 +175,84 @@ def run(chk):
                            cname, name, "; ".join("line %d %s %s" % (fn.line_of(r), kind, (c or "").replace("asmjit::", "")) for r, kind, c in bad[:3])),
                        key="errreport|%s::%s" % (cname, name))
     chk.floor(R + ":interface-functions", n, 20)
+
+    # ---------------------------------------------------------------- one-shot state is cleared before the handler runs
+    R2 = "R-RESET-BEFORE-REPORT"
+    chk.rule(R2, "in the emitter interface functions no one-shot state reset (reset_inline_comment / reset_state / reset_extra_reg / "
+                 "reset_inst_options) is executed on a path after report_error() was called: the handler may throw, and then the reset would "
+                 "be skipped and the stale comment / options leak into the next instruction")
+    from .cfg import forward
+    RESETS = ("reset_inline_comment", "reset_state", "reset_extra_reg", "reset_inst_options")
+    n2 = 0
+    for k, fn in sorted(allf.items()):
+        resets = [i for i, x in fn.calls(lambda x: x.get("cn") in RESETS)]
+        reports = {i for i, x in fn.calls(lambda x: x.get("cn") == "report_error")}
+        if not resets or not reports:
+            continue
+
+        def transfer(b, st, fn=fn, reports=reports):
+            for el in fn.blocks[b]["elems"]:
+                if isinstance(el, int) and el in reports:
+                    st = el
+            return st
+        IN, OUT = forward(fn, 0, transfer, lambda ss: max(ss))
+        pos = fn.block_of()
+        for r in resets:
+            if r not in pos:
+                continue
+            b, idx = pos[r]
+            st = IN.get(b, 0)
+            for el in fn.blocks[b]["elems"][:idx]:
+                if isinstance(el, int) and el in reports:
+                    st = el
+            n2 += 1
+            chk.ob(R2, "%s|%s" % (fn.name.replace("asmjit::", ""), fn.e(r)["cn"]), not st, loc=fn.loc(r),
+                   detail="%s() runs after report_error() (line %d) on some path: a throwing error handler skips it" % (fn.e(r)["cn"], fn.line_of(st) if st else 0),
+                   key="resetbeforereport|%s" % fn.name.replace("asmjit::", ""))
+    chk.floor(R2 + ":reset-sites", n2, 3)
+
+    # ---------------------------------------------------------------- a label is validated before the first commit of a multi-step function
+    R3 = "R-LABEL-VALID-BEFORE-COMMIT"
+    chk.rule(R3, "an emitter interface function that first commits something (align / embed / add_node) and later binds a label parameter has "
+                 "established is_label_valid(<that label>) on every path before the first commit: an invalid label fails the call before "
+                 "anything was appended")
+    from .must import Must
+    COMMITS = ("align", "embed", "embed_data_array", "add_node", "emit_zeros", "done")
+    n3 = 0
+    for k, fn in sorted(allf.items()):
+        binds = [(i, x) for i, x in fn.calls(lambda x: x.get("cn") == "bind" and x.get("args"))]
+        commits = [i for i, x in fn.calls(lambda x: x.get("cn") in COMMITS)]
+        if not binds or not commits:
+            continue
+
+        def edge_fx(b, si, atom, holds, fn=fn):
+            a = fn.e(atom)
+            if a and a["k"] in ("mcall", "call") and a.get("cn") == "is_label_valid" and holds and a.get("args"):
+                r0 = fn.root_ref(a["args"][0])
+                rx = fn.e(r0) if r0 else None
+                if rx and "did" in rx:
+                    return [("valid", rx["did"])]
+            return ()
+
+        def elem_fx(eid, x, commits=commits):
+            if eid in commits:
+                return ((("committed",),), ())
+            return None
+        m = Must(fn, elem_fx, edge_fx)
+        # may-committed: reachable from a commit
+        pos = fn.block_of()
+        for i, x in binds:
+            r0 = fn.root_ref(x["args"][0])
+            rx = fn.e(r0) if r0 else None
+            if not rx or rx.get("dk") != "parm" or i not in pos:
+                continue
+            after_commit = any(c in pos and (pos[i][0] in fn.reachable_from(pos[c][0]) or (pos[c][0] == pos[i][0] and pos[c][1] < pos[i][1])) for c in commits)
+            if not after_commit:
+                continue
+            n3 += 1
+            st = m.before(i) or frozenset()
+            chk.ob(R3, "%s|bind(%s)" % (fn.name.replace("asmjit::", ""), rx.get("name")), ("valid", rx["did"]) in st, loc=fn.loc(i),
+                   detail="bind(%s) can fail with kInvalidLabel after something was already committed (align/embed), and is_label_valid(%s) was not "
+                          "established on every path before: a rejected call is no longer free of side effects" % (rx.get("name"), rx.get("name")),
+                   key="labelbeforecommit|%s" % fn.name.replace("asmjit::", ""))
+    chk.floor(R3 + ":sites", n3, 2)
